@@ -32,9 +32,10 @@ const (
 
 // AppDB is responsible for storing basic information about app state on disk
 type AppDB struct {
-	db db.DB
-	WG sync.WaitGroup
-	mu sync.Mutex
+	db    db.DB
+	batch db.Batch // open while Commit persists its records, see StartBatch
+	WG    sync.WaitGroup
+	mu    sync.Mutex
 
 	store   tree.MTree
 	stateDB db.DB
@@ -52,6 +53,36 @@ type AppDB struct {
 
 	isDirtyPrice bool
 	price        *TimePrice
+}
+
+// set writes a record of the app DB: into the batch opened by StartBatch, if
+// there is one, otherwise directly.
+func (appDB *AppDB) set(key, value []byte) error {
+	if appDB.batch != nil {
+		return appDB.batch.Set(key, value)
+	}
+	return appDB.db.Set(key, value)
+}
+
+// StartBatch makes the records saved until WriteBatch reach the disk together.
+// Commit uses it: a process death between two records (e.g. after the height
+// but before the emission) would otherwise leave a mix of two blocks behind.
+func (appDB *AppDB) StartBatch() {
+	appDB.WG.Wait()
+	appDB.batch = appDB.db.NewBatch()
+}
+
+// WriteBatch atomically writes the records collected since StartBatch.
+func (appDB *AppDB) WriteBatch() {
+	batch := appDB.batch
+	if batch == nil {
+		return
+	}
+	appDB.batch = nil
+	defer batch.Close()
+	if err := batch.WriteSync(); err != nil {
+		panic(err)
+	}
 }
 
 // Close closes db connection, panics on error
@@ -87,7 +118,7 @@ func (appDB *AppDB) GetLastBlockHash() []byte {
 func (appDB *AppDB) SetLastBlockHash(hash []byte) {
 	appDB.WG.Wait()
 
-	if err := appDB.db.Set([]byte(hashPath), hash); err != nil {
+	if err := appDB.set([]byte(hashPath), hash); err != nil {
 		panic(err)
 	}
 }
@@ -122,7 +153,7 @@ func (appDB *AppDB) SetLastHeight(height uint64) {
 
 	appDB.WG.Wait()
 
-	if err := appDB.db.Set([]byte(heightPath), h); err != nil {
+	if err := appDB.set([]byte(heightPath), h); err != nil {
 		panic(err)
 	}
 
@@ -217,7 +248,7 @@ func (appDB *AppDB) FlushValidators() {
 
 	appDB.WG.Wait()
 
-	if err := appDB.db.Set([]byte(validatorsPath), data); err != nil {
+	if err := appDB.set([]byte(validatorsPath), data); err != nil {
 		panic(err)
 	}
 	appDB.validators = nil
@@ -297,7 +328,7 @@ func (appDB *AppDB) SaveBlocksTime() {
 
 	appDB.WG.Wait()
 
-	if err := appDB.db.Set([]byte(blocksTimePath), data); err != nil {
+	if err := appDB.set([]byte(blocksTimePath), data); err != nil {
 		panic(err)
 	}
 }
@@ -378,7 +409,7 @@ func (appDB *AppDB) SaveVersions() {
 
 	appDB.WG.Wait()
 
-	if err := appDB.db.Set([]byte(versionsPath), data); err != nil {
+	if err := appDB.set([]byte(versionsPath), data); err != nil {
 		panic(err)
 	}
 
@@ -417,7 +448,7 @@ func (appDB *AppDB) SaveEmission() {
 	}
 
 	appDB.WG.Wait()
-	if err := appDB.db.Set([]byte(emissionPath), appDB.emission.Bytes()); err != nil {
+	if err := appDB.set([]byte(emissionPath), appDB.emission.Bytes()); err != nil {
 		panic(err)
 	}
 }
@@ -562,7 +593,7 @@ func (appDB *AppDB) SavePrice() {
 		panic(err)
 	}
 
-	err = appDB.db.Set([]byte(pricePath), bytes)
+	err = appDB.set([]byte(pricePath), bytes)
 	if err != nil {
 		panic(err)
 	}
